@@ -731,7 +731,9 @@ fn mk_case(g: &mut GenCtx, op: u32, mutate: bool, prop: &str) -> String {
 fn main() {
     let a = args();
     let mut out = Out::new(a.get("out").map(|s| s.as_str()).unwrap_or("/verif/.work/srv"));
-    std::panic::set_hook(Box::new(|_| {}));
+    if std::env::var("FBR_PANIC_VERBOSE").is_err() {
+        std::panic::set_hook(Box::new(|_| {}));
+    }
     let cx = Ctx { mem: vq::new_mem(), sock: socketpair() };
     let prop_early = a.get("prop").cloned().unwrap_or_else(|| "C01".into());
     let is_async = prop_early == "C20" || a.get("mode").map(|m| m == "async").unwrap_or(false);
@@ -747,6 +749,9 @@ fn main() {
     let seed: u64 = a.get("seed").and_then(|s| s.parse().ok()).unwrap_or(1);
     let n: u64 = a.get("n").and_then(|s| s.parse().ok()).unwrap_or(3000);
     let prop = a.get("prop").cloned().unwrap_or_else(|| "C01".into());
+    if let Some(b) = a.get("big").and_then(|s| s.parse::<usize>().ok()) {
+        srvgen::BIG_LEFT.store(b, std::sync::atomic::Ordering::Relaxed);
+    }
     let mut_pct: u64 = a.get("mutpct").and_then(|s| s.parse().ok()).unwrap_or(match prop.as_str() { "C01" => 50, "C20" => 35, "C12" => 5, _ => 10 });
     let mut r = Prng::new(seed ^ 0x5127);
     if prop == "C03" {
@@ -771,6 +776,9 @@ fn main() {
             mk_case(&mut g, op, mutate, &prop)
         };
         let kvl = parse_kv(&line);
+        if std::env::var("FBR_TRACE_CASES").is_ok() {
+            let _ = std::fs::write("/verif/.work/last_case.txt", &line);
+        }
         out.stat(&format!("op{}", ks(&kvl, "op")));
         out.stat(&format!("mut:{}", ks(&kvl, "mut")));
         out.stat(&format!("t:{}", ks(&kvl, "t")));
